@@ -1,7 +1,707 @@
-//! C03 — stub (not built yet).
+//! C03 — resource sets behave as exact, canonical sets of addresses / AS numbers.
+//!
+//! Oracle: `iset.rs` normalised interval sets (u32 for AS numbers, u128 in
+//! the library's address space for IPv4/IPv6). Sub-checks:
+//!
+//! * `build`     every constructor / parser / decoder on one block sequence
+//! * `pair`      ==, contains, union, intersection, difference, issuance
+//!               (Refuse/Trim), block / ROA / ASN membership on two sets
+//! * `rset`      `ResourceSet` operations and `RequestResourceLimit::apply_to`
+//! * `text`      hostile text (inverted ranges, mixed families, whitespace, junk)
+//! * `der`       harness-written DER with unsorted/overlapping/inverted ranges
+//! * `prefixes`  `to_v4_prefixes` / `to_v6_prefixes` / `into_prefix`
+//! * `constants` `all()` / `empty()` values, model self-test
+//! * `enum-build`, `enum-pairs`  exhaustive: all sequences of <= 3 blocks and
+//!               all pairs of sets over 8-point domains, bitmap oracle
+
+#[path = "c03_util.rs"]
+mod util;
+#[path = "c03_sgen.rs"]
+mod sgen;
+#[path = "c03_more.rs"]
+mod more;
+#[path = "c03_enum.rs"]
+mod enumerate;
 
 use crate::engine::*;
+use crate::gen::U128;
+use crate::iset::{self, ISet};
+use bcder::Mode;
+use proptest::prelude::*;
+use rpki::repository::cert::Overclaim;
+use rpki::repository::resources::{
+    AsBlocks, AsBlocksBuilder, AsResources, AsResourcesBuilder, IpBlock, IpBlocks, IpBlocksBuilder, IpResources,
+    IpResourcesBuilder, Ipv4Block, Ipv4Blocks, Ipv6Block, Ipv6Blocks, Prefix,
+};
+use rpki::repository::roa::RoaIpAddress;
+use serde::{Deserialize, Serialize};
+use std::str::FromStr;
+use util::*;
+
+pub const RULE: &str = "build/pair/rset/text/der: random block sequences (0..12 blocks per set) over boundary-dense \
+endpoints {0,1,2,max,max-1,2^k,2^k+-1, small windows at 0/max/2^16/2^24/2^31/2^64/2^127/::ffff:0:0/96/::/96, prefix \
+shaped blocks} for AS numbers (u32), IPv4 (u32) and IPv6 (u128), with derived blocks forced by construction \
+(duplicate, adjacent before/after, nested, bridging two earlier blocks, covering, gap filler, touching 0/max) and \
+orders kept/sorted/reversed; related sets derived by per-block tweaks (equal, +-1 at either end, dropped, split, \
+single end points). Every entry point (FromIterator, builders, FromStr, serde, DER via the library encoder and via \
+the harness' own DER writer) is compared with the interval-set model for canonical form and denotation. \
+Non-trivial = a sequence with >= 3 blocks, not sorted by lower bound, containing an overlap or adjacency (for \
+prefixes: a range needing >= 2 prefixes). enum-build/enum-pairs: complete enumeration of all sequences of <= 3 \
+blocks and all pairs of representable sets over 8-point domains (low, high, both ends with the gap between, \
+around 2^31 resp. ::ffff:0:0) for each family, oracle = bitmap over the domain's atoms, cross-checked with iset.";
+
+fn bad<E: std::fmt::Display>(what: &str) -> impl Fn(E) -> Fail + '_ {
+    move |e| Fail::new(format!("{}: {}", what, e))
+}
+
+/// Failure for "the harness' own valid text was rejected".
+fn text_rejected(fam: Fam, what: &str, text: &str, err: String) -> Fail {
+    let sig = if fam == Fam::V6 && text.contains('.') { "text:v6-dotted-quad" } else { "text:rejected" };
+    Fail::sig(sig, format!("{} rejected valid text {:?}: {}", what, text, err))
+}
+
+//------------ DER through the library -----------------------------------------------------------
+
+fn dec_as_blocks(b: &[u8]) -> Result<AsBlocks, String> {
+    Mode::Der.decode(b, |cons| AsBlocks::take_from(cons)).map_err(|e| e.to_string())
+}
+
+/// `list` is the SEQUENCE OF ASIdOrRange; wraps it as ASIdentifiers.
+fn dec_as_resources(list: &[u8]) -> Result<AsResources, String> {
+    let ext = der_seq(&[tlv(0xa0, list)]);
+    Mode::Der.decode(ext.as_slice(), |cons| AsResources::take_from(cons)).map_err(|e| e.to_string())
+}
+
+fn dec_ip_blocks(b: &[u8], fam: Option<Fam>) -> Result<IpBlocks, String> {
+    match fam {
+        None => Mode::Der.decode(b, |cons| IpBlocks::take_from(cons)).map_err(|e| e.to_string()),
+        Some(f) => Mode::Der.decode(b, |cons| IpBlocks::take_from_with_family(cons, f.afi())).map_err(|e| e.to_string()),
+    }
+}
+
+fn dec_ip_resources(b: &[u8], fam: Fam) -> Result<IpResources, String> {
+    Mode::Der.decode(b, |cons| IpResources::take_from(cons, fam.afi())).map_err(|e| e.to_string())
+}
+
+/// IPAddrBlocks with a single family.
+fn dec_ip_families(list: &[u8], fam: Fam) -> Result<(Option<IpResources>, Option<IpResources>), String> {
+    let afi = tlv(0x04, if fam == Fam::V4 { &[0, 1] } else { &[0, 2] });
+    let ext = der_seq(&[der_seq(&[afi, list.to_vec()])]);
+    Mode::Der.decode(ext.as_slice(), |cons| IpResources::take_families_from(cons)).map_err(|e| e.to_string())
+}
+
+//------------ build -----------------------------------------------------------------------------------
+
+#[derive(Clone, Debug, Serialize, Deserialize)]
+pub struct BuildCase {
+    pub fam: Fam,
+    pub blocks: Vec<Blk>,
+    pub probes: Vec<U128>,
+    pub style: u8,
+}
+
+fn build_strategy(_: Tier) -> BoxedStrategy<BuildCase> {
+    sgen::fam_strategy()
+        .prop_flat_map(|fam| {
+            (sgen::seq(fam), prop::collection::vec(sgen::value(fam), 0..4), any::<u8>()).prop_map(move |(blocks, probes, style)| {
+                BuildCase { fam, blocks, probes: probes.into_iter().map(U128).collect(), style }
+            })
+        })
+        .boxed()
+}
+
+/// Probe items: generated ones plus every end point of the sequence and of
+/// the model and their neighbours.
+fn probe_points(fam: Fam, c: &BuildCase, vm: &ISet<u128>) -> Vec<u128> {
+    let mut p: Vec<u128> = c.probes.iter().map(|x| x.0.min(fam.max())).collect();
+    p.push(0);
+    p.push(fam.max());
+    for &(lo, hi) in vals(&c.blocks).iter().chain(vm.ranges().iter()) {
+        for x in [lo, hi] {
+            p.push(x);
+            if x > 0 {
+                p.push(x - 1);
+            }
+            if x < fam.max() {
+                p.push(x + 1);
+            }
+        }
+    }
+    p.sort();
+    p.dedup();
+    p
+}
+
+fn run_build(c: &BuildCase, obs: &mut Obs) -> CheckResult {
+    for b in &c.blocks {
+        ensure!(b.lo.0 <= b.hi.0 && b.hi.0 <= c.fam.max(), "case outside the domain: {:?}", b);
+    }
+    let cls = classify(c.fam, &vals(&c.blocks));
+    label_class(obs, c.fam, &cls);
+    let r = if c.fam == Fam::As { build_as(c, obs) } else { build_ip(c, obs) };
+    // a label counts once per case
+    obs.labels.sort();
+    obs.labels.dedup();
+    r
+}
+
+fn build_as(c: &BuildCase, obs: &mut Obs) -> CheckResult {
+    let m = as_model(&c.blocks);
+    let vm = val_model(&c.blocks);
+    let blocks: Vec<_> = c.blocks.iter().map(as_block).collect();
+
+    // programmatic entry points
+    let s1: AsBlocks = blocks.iter().copied().collect();
+    check_as("AsBlocks::from_iter", &s1, &m)?;
+    let mut b = AsBlocksBuilder::new();
+    for x in &blocks {
+        b.push(*x);
+    }
+    let s = b.finalize();
+    check_as("AsBlocksBuilder::push", &s, &m)?;
+    ensure!(s == s1, "builder result != from_iter result");
+    let mut b = AsBlocksBuilder::default();
+    b.extend(blocks.iter().copied());
+    check_as("AsBlocksBuilder::extend", &b.finalize(), &m)?;
+    let mut rb = AsResourcesBuilder::new();
+    rb.blocks(|b| {
+        for x in &blocks {
+            b.push(*x)
+        }
+    });
+    let res = rb.finalize();
+    ensure!(res.is_present() == !m.is_empty() && !res.is_inherited(), "AsResourcesBuilder: presence flags");
+    check_as("AsResourcesBuilder", &res.to_blocks().map_err(bad("to_blocks"))?, &m)?;
+    check_as("AsBlocks::from_resources", &AsBlocks::from_resources(res.clone()).map_err(bad("from_resources"))?, &m)?;
+
+    // text written by the harness
+    let text = list_text(Fam::As, &c.blocks, c.style);
+    let s = AsBlocks::from_str(&text).map_err(|e| text_rejected(Fam::As, "AsBlocks::from_str", &text, e.to_string()))?;
+    check_as("AsBlocks::from_str", &s, &m)?;
+    ensure!(s == s1 && !(s != s1), "== between parsed and collected set");
+    if !m.is_empty() {
+        let r = AsResources::from_str(&text).map_err(|e| text_rejected(Fam::As, "AsResources::from_str", &text, e.to_string()))?;
+        check_as("AsResources::from_str", &r.to_blocks().map_err(bad("to_blocks"))?, &m)?;
+    }
+    let js = serde_json::to_string(&text).unwrap();
+    let s: AsBlocks = serde_json::from_str(&js).map_err(|e| text_rejected(Fam::As, "AsBlocks deserialize", &text, e.to_string()))?;
+    check_as("AsBlocks deserialize", &s, &m)?;
+
+    // DER written by the harness: the raw sequence (may be unsorted or
+    // overlapping: the decoder may refuse that, but not mis-decode it) ...
+    let raw = der_as_list(&c.blocks);
+    let raw_canonical = iset::check_canonical(&vals(&c.blocks)).is_ok();
+    match dec_as_blocks(&raw) {
+        Ok(s) => check_as("AsBlocks::take_from(raw DER)", &s, &m)?,
+        Err(e) => {
+            ensure!(!raw_canonical, "AsBlocks::take_from rejected canonical DER: {}", e);
+            obs.label("der-raw-rejected");
+        }
+    }
+    match dec_as_resources(&raw) {
+        Ok(r) => check_as("AsResources::take_from(raw DER)", &r.to_blocks().map_err(bad("to_blocks"))?, &m)?,
+        Err(e) => ensure!(!raw_canonical, "AsResources::take_from rejected canonical DER: {}", e),
+    }
+    // ... and the canonical list
+    let canon: Vec<Blk> = m.ranges().iter().map(|&(lo, hi)| Blk::new(lo as u128, hi as u128, c.style)).collect();
+    let s = dec_as_blocks(&der_as_list(&canon)).map_err(bad("AsBlocks::take_from(canonical DER)"))?;
+    check_as("AsBlocks::take_from(canonical DER)", &s, &m)?;
+
+    // round trips of the collected set
+    let t = s1.to_string();
+    let s = AsBlocks::from_str(&t).map_err(|e| Fail::sig("roundtrip:text", format!("AsBlocks Display {:?} does not parse: {}", t, e)))?;
+    check_as("Display -> from_str", &s, &m)?;
+    ensure!(s == s1, "Display -> from_str gives an unequal set");
+    let js = serde_json::to_string(&s1).map_err(bad("serialize"))?;
+    let s: AsBlocks = serde_json::from_str(&js).map_err(|e| Fail::sig("roundtrip:serde", format!("AsBlocks JSON {} does not parse: {}", js, e)))?;
+    ensure!(s == s1, "serde round trip gives an unequal set");
+    let der = enc(bcder::encode::sequence(s1.encode_ref()));
+    ensure!(enc(bcder::encode::sequence(s1.clone().encode())) == der, "encode and encode_ref differ");
+    let s = dec_as_blocks(&der).map_err(bad("take_from(encode)"))?;
+    check_as("encode -> take_from", &s, &m)?;
+    ensure!(s == s1, "DER round trip gives an unequal set");
+    let own = rd_as_list(&der).map_err(bad("harness reader on AsBlocks::encode"))?;
+    ensure!(own.as_slice() == m.ranges(), "AsBlocks::encode denotes {:?}, model {:?}", own, m.ranges());
+    let res = AsResources::blocks(s1.clone());
+    let r = Mode::Der.decode(enc(res.encode_ref()).as_slice(), |cons| AsResources::take_from(cons)).map_err(bad("AsResources round trip"))?;
+    check_as("AsResources encode -> take_from", &r.to_blocks().map_err(bad("to_blocks"))?, &m)?;
+
+    // membership, counts, iteration
+    for p in probe_points(Fam::As, c, &vm) {
+        let p = p as u32;
+        ensure!(s1.contains_asn(asn(p)) == m.contains(p), "contains_asn({}) = {} on {:?}", p, !m.contains(p), m.ranges());
+    }
+    let count = m.count().unwrap();
+    if count <= u32::MAX as u128 {
+        ensure!(s1.asn_count() as u128 == count, "asn_count() = {} but the set {:?} has {} members", s1.asn_count(), m.ranges(), count);
+    } else {
+        obs.label("count-unrepresentable");
+        guarded("asn-count:overflow", "asn_count() of a set with 2^32 members", || s1.asn_count())?;
+    }
+    for (b, &(lo, hi)) in s1.iter().zip(m.ranges()) {
+        let n = hi as u64 - lo as u64 + 1;
+        if n <= u32::MAX as u64 {
+            ensure!(b.asn_count() as u64 == n, "AsBlock::asn_count of {}-{} = {}", lo, hi, b.asn_count());
+        } else {
+            guarded("asn-count:overflow", "AsBlock::asn_count() of AS0-AS4294967295", || b.asn_count())?;
+        }
+    }
+    if let Some(items) = m.items(2048) {
+        let got: Vec<u32> = s1.iter_asns().map(|a| a.into_u32()).collect();
+        ensure!(got == items, "iter_asns() yields {} items, expected {}", got.len(), items.len());
+        obs.label("iterated");
+    }
+    Ok(())
+}
+
+fn typed_text(fam: Fam, s: &IpBlocks) -> String {
+    if fam == Fam::V4 { Ipv4Blocks::from(s.clone()).to_string() } else { Ipv6Blocks::from(s.clone()).to_string() }
+}
+
+fn typed_from_str(fam: Fam, text: &str) -> Result<IpBlocks, String> {
+    if fam == Fam::V4 {
+        Ipv4Blocks::from_str(text).map(|b| (*b).clone()).map_err(|e| e.to_string())
+    } else {
+        Ipv6Blocks::from_str(text).map(|b| (*b).clone()).map_err(|e| e.to_string())
+    }
+}
+
+fn typed_from_json(fam: Fam, js: &str) -> Result<IpBlocks, String> {
+    if fam == Fam::V4 {
+        serde_json::from_str::<Ipv4Blocks>(js).map(|b| (*b).clone()).map_err(|e| e.to_string())
+    } else {
+        serde_json::from_str::<Ipv6Blocks>(js).map(|b| (*b).clone()).map_err(|e| e.to_string())
+    }
+}
+
+fn typed_to_json(fam: Fam, s: &IpBlocks) -> Result<String, String> {
+    if fam == Fam::V4 {
+        serde_json::to_string(&Ipv4Blocks::from(s.clone())).map_err(|e| e.to_string())
+    } else {
+        serde_json::to_string(&Ipv6Blocks::from(s.clone())).map_err(|e| e.to_string())
+    }
+}
+
+fn build_ip(c: &BuildCase, obs: &mut Obs) -> CheckResult {
+    let fam = c.fam;
+    let m = ip_model(fam, &c.blocks);
+    let vm = val_model(&c.blocks);
+    let blocks: Vec<IpBlock> = c.blocks.iter().map(|b| ip_block(fam, b)).collect();
+
+    let s1: IpBlocks = blocks.iter().copied().collect();
+    check_ip("IpBlocks::from_iter", fam, &s1, &m)?;
+    let mut b = IpBlocksBuilder::new();
+    for x in &blocks {
+        b.push(*x);
+    }
+    let s = b.finalize();
+    check_ip("IpBlocksBuilder::push", fam, &s, &m)?;
+    ensure!(s == s1, "builder result != from_iter result");
+    let mut b = IpBlocksBuilder::default();
+    b.extend(blocks.iter().copied());
+    check_ip("IpBlocksBuilder::extend", fam, &b.finalize(), &m)?;
+    let mut rb = IpResourcesBuilder::new();
+    rb.blocks(|b| {
+        for x in &blocks {
+            b.push(*x)
+        }
+    });
+    let res = rb.finalize();
+    ensure!(res.is_present() == !m.is_empty() && !res.is_inherited(), "IpResourcesBuilder: presence flags");
+    check_ip("IpResourcesBuilder", fam, &res.to_blocks().map_err(bad("to_blocks"))?, &m)?;
+    check_ip("IpBlocks::from_resources", fam, &IpBlocks::from_resources(res.clone()).map_err(bad("from_resources"))?, &m)?;
+
+    // text written by the harness
+    let text = list_text(fam, &c.blocks, c.style);
+    obs.label_if(fam == Fam::V6 && text.contains('.'), "v6-dotted-quad");
+    let s = typed_from_str(fam, &text).map_err(|e| text_rejected(fam, "Ipv4Blocks/Ipv6Blocks::from_str", &text, e))?;
+    check_ip("Ipv4Blocks/Ipv6Blocks::from_str", fam, &s, &m)?;
+    ensure!(s == s1 && !(s != s1), "== between parsed and collected set");
+    let s = IpBlocks::from_str(&text).map_err(|e| text_rejected(fam, "IpBlocks::from_str", &text, e.to_string()))?;
+    check_ip("IpBlocks::from_str", fam, &s, &m)?;
+    let js = serde_json::to_string(&text).unwrap();
+    let s = typed_from_json(fam, &js).map_err(|e| text_rejected(fam, "Ipv4Blocks/Ipv6Blocks deserialize", &text, e))?;
+    check_ip("Ipv4Blocks/Ipv6Blocks deserialize", fam, &s, &m)?;
+    // FromIterator<Ipv4Block/Ipv6Block>, blocks parsed one by one
+    let elems: Vec<String> =
+        c.blocks.iter().enumerate().map(|(i, x)| elem_text(fam, x.lo.0, x.hi.0, x.form, c.style.wrapping_add(i as u8))).collect();
+    let s: IpBlocks = if fam == Fam::V4 {
+        let v: Result<Vec<Ipv4Block>, _> = elems.iter().map(|e| Ipv4Block::from_str(e)).collect();
+        let v = v.map_err(|e| text_rejected(fam, "Ipv4Block::from_str", &text, e.to_string()))?;
+        (*v.into_iter().collect::<Ipv4Blocks>()).clone()
+    } else {
+        let v: Result<Vec<Ipv6Block>, _> = elems.iter().map(|e| Ipv6Block::from_str(e)).collect();
+        let v = v.map_err(|e| text_rejected(fam, "Ipv6Block::from_str", &text, e.to_string()))?;
+        (*v.into_iter().collect::<Ipv6Blocks>()).clone()
+    };
+    check_ip("Ipv4Blocks/Ipv6Blocks::from_iter", fam, &s, &m)?;
+
+    // DER written by the harness
+    let raw = der_ip_list(fam, &c.blocks);
+    let raw_canonical = iset::check_canonical(&vals(&c.blocks)).is_ok();
+    for (name, r) in [
+        ("IpBlocks::take_from(raw DER)", dec_ip_blocks(&raw, None)),
+        ("IpBlocks::take_from_with_family(raw DER)", dec_ip_blocks(&raw, Some(fam))),
+        ("IpResources::take_from(raw DER)", dec_ip_resources(&raw, fam).and_then(|r| r.to_blocks().map_err(|e| e.to_string()))),
+    ] {
+        match r {
+            Ok(s) => check_ip(name, fam, &s, &m)?,
+            Err(e) => {
+                ensure!(!raw_canonical, "{} rejected canonical DER: {}", name, e);
+                obs.label("der-raw-rejected");
+            }
+        }
+    }
+    let canon: Vec<Blk> = m
+        .ranges()
+        .iter()
+        .map(|&(lo, hi)| {
+            let (l, h) = from_addr(fam, lo, hi);
+            Blk::new(l, h, c.style)
+        })
+        .collect();
+    let cd = der_ip_list(fam, &canon);
+    let s = dec_ip_blocks(&cd, Some(fam)).map_err(bad("IpBlocks::take_from_with_family(canonical DER)"))?;
+    check_ip("IpBlocks::take_from_with_family(canonical DER)", fam, &s, &m)?;
+    if !m.is_empty() {
+        let (v4, v6) = dec_ip_families(&cd, fam).map_err(bad("IpResources::take_families_from(canonical DER)"))?;
+        let (own, other) = if fam == Fam::V4 { (v4, v6) } else { (v6, v4) };
+        ensure!(other.is_none(), "take_families_from: resources for the other family appeared");
+        let own = own.ok_or_else(|| Fail::new("take_families_from: family missing"))?;
+        check_ip("IpResources::take_families_from", fam, &own.to_blocks().map_err(bad("to_blocks"))?, &m)?;
+    }
+
+    // round trips of the collected set
+    let t = typed_text(fam, &s1);
+    let s = typed_from_str(fam, &t).map_err(|e| {
+        let sig = if fam == Fam::V6 && t.contains('.') { "roundtrip:v6-dotted-quad" } else { "roundtrip:text" };
+        Fail::sig(sig, format!("Display form {:?} does not parse back: {}", t, e))
+    })?;
+    check_ip("Display -> from_str", fam, &s, &m)?;
+    ensure!(s == s1, "Display -> from_str gives an unequal set");
+    let fam_text = if fam == Fam::V4 { s1.as_v4().to_string() } else { s1.as_v6().to_string() };
+    ensure!(fam_text == t, "as_v4()/as_v6() text differs from the typed Display");
+    let s = IpBlocks::from_str(&t).map_err(|e| {
+        let sig = if fam == Fam::V6 && t.contains('.') { "roundtrip:v6-dotted-quad" } else { "roundtrip:text" };
+        Fail::sig(sig, format!("IpBlocks::from_str of the Display form {:?} fails: {}", t, e))
+    })?;
+    ensure!(s == s1, "IpBlocks::from_str(Display) gives an unequal set");
+    let js = typed_to_json(fam, &s1).map_err(bad("serialize"))?;
+    let s = typed_from_json(fam, &js).map_err(|e| {
+        let sig = if fam == Fam::V6 && js.contains('.') { "roundtrip:v6-dotted-quad" } else { "roundtrip:serde" };
+        Fail::sig(sig, format!("JSON form {} does not parse back: {}", js, e))
+    })?;
+    ensure!(s == s1, "serde round trip gives an unequal set");
+    let der = enc(s1.encode_ref());
+    ensure!(enc(s1.clone().encode()) == der, "encode and encode_ref differ");
+    let s = dec_ip_blocks(&der, Some(fam)).map_err(bad("take_from_with_family(encode)"))?;
+    check_ip("encode -> take_from_with_family", fam, &s, &m)?;
+    ensure!(s == s1, "DER round trip gives an unequal set");
+    ensure!(dec_ip_blocks(&der, None).map_err(bad("take_from(encode)"))? == s1, "DER round trip (take_from) gives an unequal set");
+    let own = rd_ip_list(&der).map_err(bad("harness reader on IpBlocks::encode"))?;
+    ensure!(own.as_slice() == m.ranges(), "IpBlocks::encode denotes {}, model {}", fmt_ip(&own), fmt_ip(m.ranges()));
+
+    // membership of single addresses and small blocks
+    let pts = probe_points(fam, c, &vm);
+    for w in pts.windows(2).map(|w| (w[0], w[1])).chain(pts.iter().map(|&p| (p, p))) {
+        let (lo, hi) = to_addr(fam, w.0, w.1);
+        let blk = IpBlock::from((addr(lo), addr(hi)));
+        ensure!(s1.contains_block(blk) == m.contains_range(lo, hi), "contains_block({:x}-{:x}) on {}", lo, hi, fmt_ip(m.ranges()));
+        ensure!(s1.intersects_block(blk) == m.intersects_range(lo, hi), "intersects_block({:x}-{:x}) on {}", lo, hi, fmt_ip(m.ranges()));
+    }
+    // prefix decomposition of every stored and every given block
+    let mut multi = false;
+    let mut ranges: Vec<(u128, u128)> = m.ranges().to_vec();
+    ranges.extend(vals(&c.blocks).iter().map(|&(l, h)| to_addr(fam, l, h)));
+    for (lo, hi) in ranges {
+        multi |= check_prefixes(fam, lo, hi)? > 1;
+    }
+    obs.label_if(multi, "multi-prefix-range");
+    Ok(())
+}
+
+//------------ pair ---------------------------------------------------------------------------------
+
+#[derive(Clone, Debug, Serialize, Deserialize)]
+pub struct PairCase {
+    pub fam: Fam,
+    pub a: Vec<Blk>,
+    pub b: Vec<Blk>,
+    pub probes: Vec<(U128, U128)>,
+}
+
+fn pair_strategy(_: Tier) -> BoxedStrategy<PairCase> {
+    sgen::fam_strategy()
+        .prop_flat_map(|fam| {
+            (sgen::related(fam), prop::collection::vec((sgen::value(fam), 0u8..6, sgen::value(fam)), 0..3)).prop_map(move |(r, p)| {
+                let probes = p
+                    .into_iter()
+                    .map(|(x, w, y)| if w < 5 { (U128(x), U128(x.saturating_add(w as u128).min(fam.max()))) } else { (U128(x.min(y)), U128(x.max(y))) })
+                    .collect();
+                PairCase { fam, a: r.a, b: r.b, probes }
+            })
+        })
+        .boxed()
+}
+
+/// Probe blocks in value space: the generated ones and blocks derived from
+/// the ends of both sets (equal, one less, one more, gaps).
+pub(crate) fn probe_blocks(fam: Fam, gen: &[(U128, U128)], sets: &[&ISet<u128>]) -> Vec<(u128, u128)> {
+    let max = fam.max();
+    let mut out: Vec<(u128, u128)> = gen.iter().map(|(a, b)| (a.0.min(max), b.0.min(max))).filter(|(a, b)| a <= b).collect();
+    out.push((0, 0));
+    out.push((max, max));
+    out.push((0, max));
+    for s in sets {
+        let r = s.ranges();
+        for (i, &(lo, hi)) in r.iter().enumerate().take(6) {
+            out.extend([(lo, hi), (lo, lo), (hi, hi)]);
+            if lo > 0 {
+                out.extend([(lo - 1, lo - 1), (lo - 1, lo), (lo - 1, hi)]);
+            }
+            if hi < max {
+                out.extend([(hi + 1, hi + 1), (hi, hi + 1), (lo, hi + 1)]);
+            }
+            if hi - lo >= 2 {
+                out.push((lo + 1, hi - 1));
+            }
+            if let Some(&(nlo, nhi)) = r.get(i + 1) {
+                out.extend([(hi + 1, nlo - 1), (hi, nlo), (lo, nhi)]);
+            }
+        }
+    }
+    out.sort();
+    out.dedup();
+    out
+}
+
+fn pair_labels(obs: &mut Obs, eq: bool, sub: bool, sup: bool, disjoint: bool) {
+    obs.label_if(eq, "equal");
+    obs.label_if(sub && !eq, "b-strict-subset");
+    obs.label_if(sup && !eq, "b-strict-superset");
+    obs.label_if(disjoint, "disjoint");
+    obs.label_if(!sub && !sup && !disjoint, "partial-overlap");
+}
+
+fn run_pair(c: &PairCase, obs: &mut Obs) -> CheckResult {
+    for b in c.a.iter().chain(c.b.iter()) {
+        ensure!(b.lo.0 <= b.hi.0 && b.hi.0 <= c.fam.max(), "case outside the domain: {:?}", b);
+    }
+    let (ca, cb) = (classify(c.fam, &vals(&c.a)), classify(c.fam, &vals(&c.b)));
+    obs.label(c.fam.label());
+    obs.label_if(ca.bridging || cb.bridging, "bridging");
+    obs.label_if(ca.touch_bound || cb.touch_bound, "touching-bound");
+    obs.nontrivial_if(ca.nontrivial || cb.nontrivial);
+    if c.fam == Fam::As {
+        pair_as(c, obs)
+    } else {
+        pair_ip(c, obs)
+    }
+}
+
+fn pair_as(c: &PairCase, obs: &mut Obs) -> CheckResult {
+    let (ma, mb) = (as_model(&c.a), as_model(&c.b));
+    let (a, b) = (lib_as(&c.a), lib_as(&c.b));
+    check_as("A", &a, &ma)?;
+    check_as("B", &b, &mb)?;
+    let (u, i, dab, dba) = (ma.union(&mb), ma.intersection(&mb), ma.difference(&mb), mb.difference(&ma));
+    let (eq, sub, sup) = (ma == mb, mb.is_subset(&ma), ma.is_subset(&mb));
+    pair_labels(obs, eq, sub, sup, i.is_empty());
+
+    ensure!((a == b) == eq && (a != b) == !eq && (b == a) == eq, "A == B is {} for {:?} and {:?}", a == b, ma.ranges(), mb.ranges());
+    ensure!(a.contains(&b) == sub, "A.contains(B) = {} for A={:?} B={:?}", !sub, ma.ranges(), mb.ranges());
+    ensure!(b.contains(&a) == sup, "B.contains(A) = {} for A={:?} B={:?}", !sup, ma.ranges(), mb.ranges());
+    check_as("A.union(B)", &a.union(&b), &u)?;
+    check_as("B.union(A)", &b.union(&a), &u)?;
+    check_as("A.intersection(B)", &a.intersection(&b), &i)?;
+    check_as("B.intersection(A)", &b.intersection(&a), &i)?;
+    let mut t = a.clone();
+    t.intersection_assign(&b);
+    check_as("A.intersection_assign(B)", &t, &i)?;
+    check_as("A.difference(B)", &a.difference(&b), &dab)?;
+    check_as("B.difference(A)", &b.difference(&a), &dba)?;
+
+    // issuance: A issues a certificate claiming B
+    let claim = AsResources::blocks(b.clone());
+    match a.verify_issued(&claim, Overclaim::Refuse) {
+        Ok(s) => {
+            ensure!(sub, "verify_issued(Refuse) accepted an overclaim: issuer {:?} claim {:?}", ma.ranges(), mb.ranges());
+            check_as("verify_issued(Refuse)", &s, &mb)?;
+        }
+        Err(e) => {
+            ensure!(!sub, "verify_issued(Refuse) refused a covered claim: issuer {:?} claim {:?}", ma.ranges(), mb.ranges());
+            let t = e.to_string();
+            let list = t.strip_prefix("overclaimed AS resources: ").ok_or_else(|| Fail::new(format!("unexpected error text {:?}", t)))?;
+            check_as("overclaim report", &AsBlocks::from_str(list).map_err(bad("overclaim report"))?, &dba)?;
+        }
+    }
+    let s = a.verify_issued(&claim, Overclaim::Trim).map_err(bad("verify_issued(Trim)"))?;
+    check_as("verify_issued(Trim)", &s, &i)?;
+    for mode in [Overclaim::Refuse, Overclaim::Trim] {
+        let s = a.verify_issued(&AsResources::inherit(), mode).map_err(bad("verify_issued(inherit)"))?;
+        check_as("verify_issued(inherit)", &s, &ma)?;
+        let s = a.verify_issued(&AsResources::missing(), mode).map_err(bad("verify_issued(missing)"))?;
+        check_as("verify_issued(missing)", &s, &ISet::empty())?;
+    }
+    ensure!(b.verify_covered(&AsResources::blocks(a.clone())).is_ok() == sub, "verify_covered for A={:?} B={:?}", ma.ranges(), mb.ranges());
+    ensure!(b.verify_covered(&AsResources::inherit()).is_ok(), "verify_covered(inherit)");
+
+    let un = a.union(&b);
+    let di = a.difference(&b);
+    for (lo, hi) in probe_blocks(Fam::As, &c.probes, &[&val_model(&c.a), &val_model(&c.b)]) {
+        for p in [lo as u32, hi as u32] {
+            ensure!(a.contains_asn(asn(p)) == ma.contains(p), "A.contains_asn({})", p);
+            ensure!(b.contains_asn(asn(p)) == mb.contains(p), "B.contains_asn({})", p);
+            ensure!(un.contains_asn(asn(p)) == u.contains(p), "union.contains_asn({})", p);
+            ensure!(di.contains_asn(asn(p)) == dab.contains(p), "difference.contains_asn({})", p);
+        }
+    }
+    for (s, m) in [(&un, &u), (&di, &dab), (&a.intersection(&b), &i)] {
+        let n = m.count().unwrap();
+        if n <= u32::MAX as u128 {
+            ensure!(s.asn_count() as u128 == n, "asn_count() = {} for {:?}", s.asn_count(), m.ranges());
+        }
+    }
+    Ok(())
+}
+
+/// ROA prefixes (value space address, length) worth asking about a block.
+pub(crate) fn roa_probes(fam: Fam, lo: u128, hi: u128) -> Vec<(u128, u8)> {
+    let ps: Vec<(u128, u8)> = match fam {
+        Fam::V4 => iset::range_to_prefixes(lo as u32, hi as u32).into_iter().map(|(a, l)| (a as u128, l)).collect(),
+        _ => iset::range_to_prefixes(lo, hi),
+    };
+    let mut out = Vec::new();
+    if let (Some(&f), Some(&l)) = (ps.first(), ps.last()) {
+        out.push(f);
+        out.push(l);
+        for (a, len) in [f, l] {
+            if len > 0 {
+                out.push((a, len - 1)); // parent (host bits are cleared by Prefix::new)
+            }
+            if (len as u32) < fam.bits() {
+                out.push((a, len + 1));
+            }
+        }
+    }
+    out
+}
+
+fn pair_ip(c: &PairCase, obs: &mut Obs) -> CheckResult {
+    let fam = c.fam;
+    let (ma, mb) = (ip_model(fam, &c.a), ip_model(fam, &c.b));
+    let (a, b) = (lib_ip(fam, &c.a), lib_ip(fam, &c.b));
+    check_ip("A", fam, &a, &ma)?;
+    check_ip("B", fam, &b, &mb)?;
+    let (u, i, dab, dba) = (ma.union(&mb), ma.intersection(&mb), ma.difference(&mb), mb.difference(&ma));
+    let (eq, sub, sup) = (ma == mb, mb.is_subset(&ma), ma.is_subset(&mb));
+    pair_labels(obs, eq, sub, sup, i.is_empty());
+    let show = |m: &ISet<u128>| fmt_ip(m.ranges());
+
+    ensure!((a == b) == eq && (a != b) == !eq && (b == a) == eq, "A == B is {} for {} and {}", a == b, show(&ma), show(&mb));
+    ensure!(a.contains(&b) == sub, "A.contains(B) = {} for A={} B={}", !sub, show(&ma), show(&mb));
+    ensure!(b.contains(&a) == sup, "B.contains(A) = {} for A={} B={}", !sup, show(&ma), show(&mb));
+    check_ip("A.union(B)", fam, &a.union(&b), &u)?;
+    check_ip("B.union(A)", fam, &b.union(&a), &u)?;
+    check_ip("A.intersection(B)", fam, &a.intersection(&b), &i)?;
+    check_ip("B.intersection(A)", fam, &b.intersection(&a), &i)?;
+    let mut t = a.clone();
+    t.intersection_assign(&b);
+    check_ip("A.intersection_assign(B)", fam, &t, &i)?;
+    check_ip("A.difference(B)", fam, &a.difference(&b), &dab)?;
+    check_ip("B.difference(A)", fam, &b.difference(&a), &dba)?;
+
+    let claim = IpResources::blocks(b.clone());
+    match a.verify_issued(&claim, Overclaim::Refuse) {
+        Ok(s) => {
+            ensure!(sub, "verify_issued(Refuse) accepted an overclaim: issuer {} claim {}", show(&ma), show(&mb));
+            check_ip("verify_issued(Refuse)", fam, &s, &mb)?;
+        }
+        Err(e) => {
+            ensure!(!sub, "verify_issued(Refuse) refused a covered claim: issuer {} claim {}", show(&ma), show(&mb));
+            let (t, pre) = if fam == Fam::V4 {
+                (e.v4().to_string(), "overclaimed IPv4 resources: ")
+            } else {
+                (e.v6().to_string(), "overclaimed IPv6 resources: ")
+            };
+            let list = t.strip_prefix(pre).ok_or_else(|| Fail::new(format!("unexpected error text {:?}", t)))?;
+            let s = typed_from_str(fam, list).map_err(|e| {
+                let sig = if fam == Fam::V6 && list.contains('.') { "roundtrip:v6-dotted-quad" } else { "roundtrip:text" };
+                Fail::sig(sig, format!("overclaim report {:?} does not parse: {}", list, e))
+            })?;
+            check_ip("overclaim report", fam, &s, &dba)?;
+        }
+    }
+    let s = a.verify_issued(&claim, Overclaim::Trim).map_err(|_| Fail::new("verify_issued(Trim) failed"))?;
+    check_ip("verify_issued(Trim)", fam, &s, &i)?;
+    for mode in [Overclaim::Refuse, Overclaim::Trim] {
+        let s = a.verify_issued(&IpResources::inherit(), mode).map_err(|_| Fail::new("verify_issued(inherit) failed"))?;
+        check_ip("verify_issued(inherit)", fam, &s, &ma)?;
+        let s = a.verify_issued(&IpResources::missing(), mode).map_err(|_| Fail::new("verify_issued(missing) failed"))?;
+        check_ip("verify_issued(missing)", fam, &s, &ISet::empty())?;
+    }
+    ensure!(b.verify_covered(&IpResources::blocks(a.clone())).is_ok() == sub, "verify_covered for A={} B={}", show(&ma), show(&mb));
+    ensure!(b.verify_covered(&IpResources::inherit()).is_ok(), "verify_covered(inherit)");
+
+    let un = a.union(&b);
+    let di = a.difference(&b);
+    let it = a.intersection(&b);
+    for (plo, phi) in probe_blocks(fam, &c.probes, &[&val_model(&c.a), &val_model(&c.b)]) {
+        let (lo, hi) = to_addr(fam, plo, phi);
+        let blk = IpBlock::from((addr(lo), addr(hi)));
+        for (name, s, m) in [("A", &a, &ma), ("B", &b, &mb), ("union", &un, &u), ("difference", &di, &dab), ("intersection", &it, &i)] {
+            ensure!(s.contains_block(blk) == m.contains_range(lo, hi), "{}.contains_block({:x}-{:x}) = {} on {}", name, lo, hi, !m.contains_range(lo, hi), show(m));
+            ensure!(s.intersects_block(blk) == m.intersects_range(lo, hi), "{}.intersects_block({:x}-{:x}) = {} on {}", name, lo, hi, !m.intersects_range(lo, hi), show(m));
+        }
+        for (pa, len) in roa_probes(fam, plo, phi) {
+            let p = Prefix::new(addr(to_addr(fam, pa, pa).0), len);
+            let (rl, rh) = iset::prefix_range(to_addr(fam, pa, pa).0, len);
+            ensure!((p.min().to_bits(), p.max().to_bits()) == (rl, rh), "Prefix::new range {:x}/{}", pa, len);
+            let roa = RoaIpAddress::new(p, None);
+            for (name, s, m) in [("A", &a, &ma), ("union", &un, &u), ("difference", &di, &dab)] {
+                ensure!(s.contains_roa(&roa) == m.contains_range(rl, rh), "{}.contains_roa({:x}/{}) = {} on {}", name, rl, len, !m.contains_range(rl, rh), show(m));
+            }
+        }
+    }
+    Ok(())
+}
+
+//------------ property ---------------------------------------------------------------------------------
 
 pub fn property() -> Property {
-    Property { id: "C03", rule: "", assumptions: vec![], subs: vec![] }
+    Property {
+        id: "C03",
+        rule: RULE,
+        assumptions: vec![
+            "std::net address formatting/parsing is correct (used by the harness' text writer and by the library)",
+            "blocks handed to FromIterator/builders have min <= max (AsBlock::from((a,b)) / AddressRange::new do not check; inverted pairs are generated for text and DER only)",
+            "iset.rs is the reference; it is itself compared with a bitmap on every run (constants, enum-*)",
+            "a decoder may refuse DER whose block list is not canonical (RFC 3779 requires sorted lists); what it accepts must denote the union",
+        ],
+        subs: vec![
+            PropSub {
+                name: "build",
+                strategy: build_strategy,
+                cases: |t| t.pick(120_000, 2_500_000),
+                run: run_build,
+                floors: &[("bridging", 0.10), ("touching-bound", 0.10), ("adjacent", 0.10), ("nested", 0.10), ("v6-dotted-quad", 0.02)],
+            }
+            .boxed(),
+            PropSub {
+                name: "pair",
+                strategy: pair_strategy,
+                cases: |t| t.pick(100_000, 2_000_000),
+                run: run_pair,
+                floors: &[("bridging", 0.05), ("touching-bound", 0.10), ("equal", 0.05), ("b-strict-subset", 0.05), ("partial-overlap", 0.10)],
+            }
+            .boxed(),
+            more::rset_sub(),
+            more::text_sub(),
+            more::der_sub(),
+            more::prefixes_sub(),
+            enumerate::constants_sub(),
+            enumerate::enum_build_sub(),
+            enumerate::enum_pairs_sub(),
+        ],
+    }
 }
